@@ -55,5 +55,5 @@ func (op ObjectProperties) MarshalJSON() ([]byte, error) {
 		}
 	}
 	b.WriteByte('}')
-	return b.Bytes(), nil
+	return append([]byte(nil), b.Bytes()...), nil
 }
